@@ -38,6 +38,13 @@ fn main() {
     }
     let seed: u64 = std::env::var("VERIF_SEED").ok().and_then(|s| s.parse::<i64>().ok()).map(|v| v as u64).unwrap_or(0);
 
+    if id == "__c10worker" {
+        let seed: u64 = args.get(2).and_then(|s| s.parse().ok()).unwrap_or(0);
+        let n: usize = args.get(3).and_then(|s| s.parse().ok()).unwrap_or(100);
+        vh::exec::install_quiet_panic_hook();
+        props::c10::worker(seed, n);
+        return;
+    }
     if id == "selftest" {
         match selftest() {
             Ok(n) => {
